@@ -19,7 +19,8 @@ From AwVerif Require Import Base.Prelude Model.MemHeap Model.TransformHeap Model
   Model.ClassifyBase Model.Classify Model.ClassifyHeap
   Proofs.MemHeapBase Proofs.MemHeapCopy Proofs.MemHeapFrame
   Proofs.TransformHeapBase Proofs.DictHeapBase Proofs.ClassifyHeapFrame
-  Proofs.ClassifyStore Proofs.ClassifyHeapRefine.
+  Proofs.ClassifyStore Proofs.ClassifyHeapRefine Proofs.TransformHeapCopy Proofs.TransformHeapTheorems
+  Proofs.ClassifyHeapSimplify.
 Local Open Scope nat_scope.
 Local Notation lookup := MemHeap.lookup.
 
@@ -197,13 +198,14 @@ Proof. exact split_h_sequential. Qed.
 Print Assumptions C19_split_url_sequential.
 
 (* simplify_string = deep copy (Props/C10own.v: C10_deepcopy_memo*, the copy has exactly the
-   sharing of the original) followed by this loop on the copies *)
-Theorem C19_simplify_loop_sequential_partial : forall sp sf sd key h ks vds,
+   sharing of the original) followed by this loop on the copies; the composition is
+   C19_simplify_sequential / _refines / _shared at the end of this file *)
+Theorem C19_simplify_loop_sequential : forall sp sf sd key h ks vds,
   views h ks vds -> sepd (map snd vds) h ->
   snd (each_h (simplify_one_h sp sf sd key) h ks) = snd (sequential (simplify_dict sp sf sd key) vds) /\
   views (fst (each_h (simplify_one_h sp sf sd key) h ks)) ks (fst (sequential (simplify_dict sp sf sd key) vds)).
 Proof. exact simplify_loop_sequential. Qed.
-Print Assumptions C19_simplify_loop_sequential_partial.
+Print Assumptions C19_simplify_loop_sequential.
 
 (* what [sequential] is: (1) pairwise distinct dict objects - the functional model, event by
    event, also when it raises; (2) in general, when it goes through - f once per listed
@@ -354,4 +356,138 @@ Example C19own_shared_string_category_differs :
 Proof.
   split; [vm_compute; reflexivity|]. split; [|vm_compute; reflexivity].
   eexists. split; vm_compute; reflexivity.
+Qed.
+
+(* ---- simplify_string as a WHOLE call: deepcopy composed with the loop ----
+   Proofs/ClassifyHeapSimplify.v.  copy.deepcopy keeps a memo, so the copies share data dicts
+   exactly as the originals do (Proofs/TransformHeapCopy.v: the memo is a graph morphism,
+   injective, and a function on acyclic heaps); the loop then runs on the copies.  Three
+   facts compose the two: a copied Event reads back as the original with the memo image of
+   its dict; [sepd] carries over to the copies; the reference semantics is invariant under a
+   one-to-one renaming of dict identities.
+   Hypotheses: wf h (closed, acyclic: deepcopy returns; Python would also copy cyclic data),
+   the argument list object is not itself a listed data dict (list vs dict), sepd. *)
+
+(* the three composition facts *)
+Theorem C19_deepcopy_event_reads_the_same : forall h L h1 m L1, copied h L h1 m L1 ->
+  forall e e1 v dl, In (e, e1) m -> cview h e = Some (v, dl) ->
+  exists dl1, In (dl, dl1) m /\ cview h1 e1 = Some (v, dl1).
+Proof. exact copied_cview. Qed.
+Print Assumptions C19_deepcopy_event_reads_the_same.
+
+Theorem C19_deepcopy_keeps_separation : forall h L h1 m L1, copied h L h1 m L1 ->
+  forall ks vds vds1, views h ks vds -> ren (related m) vds vds1 ->
+  sepd (map snd vds) h -> sepd (map snd vds1) h1.
+Proof. exact copied_sepd. Qed.
+Print Assumptions C19_deepcopy_keeps_separation.
+
+Theorem C19_sequential_renaming : forall f (R : nat -> nat -> Prop),
+  (forall a b c, R a c -> R b c -> a = b) -> (forall a b c, R a b -> R a c -> b = c) ->
+  forall vds vds1, ren R vds vds1 ->
+  snd (sequential f vds) = snd (sequential f vds1) /\
+  map fst (fst (sequential f vds)) = map fst (fst (sequential f vds1)).
+Proof. exact sequential_ren. Qed.
+Print Assumptions C19_sequential_renaming.
+
+(* EXACTLY what the call does, any aliasing: outcome (returns / exception class) and the
+   returned events are those of the reference semantics on the ARGUMENT's events with their
+   own dict identities; the argument reads back unchanged; no cell that existed is written,
+   the returned list is new *)
+Theorem C19_simplify_sequential : forall sp sf sd key h L p ks vds,
+  wf h -> lookup h L = Some (Cell (TNode p) ks) -> views h ks vds ->
+  sepd (map snd vds) h -> ~ In L (map snd vds) ->
+  match snd (sequential (simplify_dict sp sf sd key) vds) with
+  | Ok _ => exists h' L', simplify_string_h sp sf sd h L key = Ok (h', L') /\
+              clist_at h' L' = Some (map fst (fst (sequential (simplify_dict sp sf sd key) vds))) /\
+              clist_at h' L = Some (map fst vds) /\
+              framed h h' /\ length h <= L' < length h'
+  | Err c => simplify_string_h sp sf sd h L key = Err c
+  | OutOfFuel => simplify_string_h sp sf sd h L key = OutOfFuel
+  end.
+Proof. exact simplify_h_sequential. Qed.
+Print Assumptions C19_simplify_sequential.
+
+(* (1) pairwise distinct data dicts among the listed events: reading the returned events
+   gives exactly Model/Classify.v's simplify_string of the read-back argument (or the same
+   exception class); the input cells are unchanged *)
+Theorem C19_simplify_refines : forall sp sf sd key h L p ks vds,
+  wf h -> lookup h L = Some (Cell (TNode p) ks) -> views h ks vds ->
+  sepd (map snd vds) h -> ~ In L (map snd vds) -> NoDup (map snd vds) ->
+  match simplify_string sp sf sd (map fst vds) key with
+  | Ok out => exists h' L', simplify_string_h sp sf sd h L key = Ok (h', L') /\
+                clist_at h' L' = Some out /\ clist_at h' L = Some (map fst vds) /\
+                framed h h' /\ length h <= L' < length h'
+  | Err c => simplify_string_h sp sf sd h L key = Err c
+  | OutOfFuel => simplify_string_h sp sf sd h L key = OutOfFuel
+  end.
+Proof. exact simplify_h_refines. Qed.
+Print Assumptions C19_simplify_refines.
+
+(* (2) shared data dicts: the call returns iff the reference semantics goes through, and
+   then every returned event carries the substitution applied once per listed occurrence of
+   the ORIGINAL event's dict object; otherwise the same exception class *)
+Theorem C19_simplify_shared : forall sp sf sd key h L p ks vds,
+  wf h -> lookup h L = Some (Cell (TNode p) ks) -> views h ks vds ->
+  sepd (map snd vds) h -> ~ In L (map snd vds) ->
+  (exists h' L' vds', simplify_string_h sp sf sd h L key = Ok (h', L') /\
+      clist_at h' L' = Some (map fst vds') /\
+      Forall2 (result_of (simplify_dict sp sf sd key) (map snd vds)) vds vds' /\
+      clist_at h' L = Some (map fst vds) /\ framed h h' /\ length h <= L' < length h') \/
+  (exists c, simplify_string_h sp sf sd h L key = Err c /\
+             snd (sequential (simplify_dict sp sf sd key) vds) = Err c).
+Proof. exact simplify_h_shared. Qed.
+Print Assumptions C19_simplify_shared.
+
+(* ---- Non-vacuity ----
+   ex19m (every cell refers to earlier cells only: wf): events 2 and 3 SHARE the data dict 1
+   (title str 5, a nested list value at 0), event 5 has its own dict 4 (title str 6); the
+   argument list [2; 3; 5] at 6.  With sub_parens = +100: the shared dict's copy is
+   substituted twice (5 -> 205), the other once (6 -> 106); the functional model gives 105 to
+   both sharers - the hypothesis NoDup of C19_simplify_refines is exact. *)
+Definition ex19m : heap :=
+  [ Cell (TNode (lenc [3; 4]%Z)) [];
+    dict_cell [(K_title, ZS 10); (101%Z, ZK 0)];
+    Cell (TEv (Some 1%Z) 1000 2000) [1];
+    Cell (TEv None 5000 1000) [1];
+    dict_cell [(K_title, ZS 12)];
+    Cell (TEv None 7000 1000) [4];
+    Cell (TNode EVENT_LIST) [2; 3; 5] ].
+Definition ex19m_a : cevent := mkCE (Some 1%Z) 1000 2000 [(K_title, VStr 5); (101%Z, VList [3; 4]%Z)].
+Definition ex19m_b : cevent := mkCE None 5000 1000 [(K_title, VStr 5); (101%Z, VList [3; 4]%Z)].
+Definition ex19m_c : cevent := mkCE None 7000 1000 [(K_title, VStr 6)].
+
+Example C19own_simplify_hypotheses_met :
+  wf ex19m /\ views ex19m [2; 3; 5] [(ex19m_a, 1); (ex19m_b, 1); (ex19m_c, 4)] /\
+  sepd [1; 1; 4] ex19m /\ ~ In 6 [1; 1; 4] /\
+  (* the list without the second sharer: pairwise distinct dicts *)
+  NoDup [1; 4].
+Proof.
+  split; [apply ordered_wf; reflexivity|].
+  split; [repeat constructor; vm_compute; reflexivity|]. split.
+  { intros dl p kk l I Lk Il Id.
+    destruct I as [<-|[<-|[<-|[]]]]; vm_compute in Lk; inversion Lk; subst kk;
+      (destruct Il as [<-|[]] || destruct Il);
+      destruct Id as [E|[E|[E|[]]]]; discriminate E. }
+  split. { intros [E|[E|[E|[]]]]; discriminate E. }
+  repeat constructor; cbn; intuition discriminate.
+Qed.
+
+Example C19own_simplify_shared_runs_twice :
+  (exists h' L', simplify_string_h (fun s => s + 100)%Z (fun s => s) (fun s => s) ex19m 6 K_title = Ok (h', L') /\
+     clist_at h' L' = Some [set_cdata ex19m_a [(K_title, VStr 205); (101%Z, VList [3; 4]%Z)];
+                            set_cdata ex19m_b [(K_title, VStr 205); (101%Z, VList [3; 4]%Z)];
+                            set_cdata ex19m_c [(K_title, VStr 106)]] /\
+     clist_at h' 6 = Some [ex19m_a; ex19m_b; ex19m_c]) /\
+  map fst (fst (sequential (simplify_dict (fun s => s + 100)%Z (fun s => s) (fun s => s) K_title)
+                           [(ex19m_a, 1); (ex19m_b, 1); (ex19m_c, 4)])) =
+    [set_cdata ex19m_a [(K_title, VStr 205); (101%Z, VList [3; 4]%Z)];
+     set_cdata ex19m_b [(K_title, VStr 205); (101%Z, VList [3; 4]%Z)];
+     set_cdata ex19m_c [(K_title, VStr 106)]] /\
+  simplify_string (fun s => s + 100)%Z (fun s => s) (fun s => s) [ex19m_a; ex19m_b; ex19m_c] K_title =
+    Ok [set_cdata ex19m_a [(K_title, VStr 105); (101%Z, VList [3; 4]%Z)];
+        set_cdata ex19m_b [(K_title, VStr 105); (101%Z, VList [3; 4]%Z)];
+        set_cdata ex19m_c [(K_title, VStr 106)]].
+Proof.
+  split; [|split; vm_compute; reflexivity].
+  eexists _, _. split; [vm_compute; reflexivity|]. split; vm_compute; reflexivity.
 Qed.
